@@ -454,6 +454,12 @@ def run(ctx):
             from ..sim import eval_bool_sym
             sent_val = eval_bool_sym(sent, {a.text: v for a, v in p.decisions})
         if sent_val is None:
+            # `m.re is P` / `m.re is not P` on the match object the fields are read from: a match remembers the pattern that made it
+            mre = re.match(r'^(?P<pat>[\w.]+(?:\(\))?\.(?P<a>\w+))\.search\(raw\)\.re (?P<op>is|is not|==|!=) [\w.]+(?:\(\))?\.(?P<b>\w+)$', norm(sent))
+            if mre and mre.group('a') in pats and mre.group('b') in pats:
+                same = mre.group('a') == mre.group('b')
+                sent_val = same if mre.group('op') in ('is', '==') else not same
+        if sent_val is None:
             ctx.violation('C01.10', 'message:sent-not-constant', site_msg, 'sent flag is %s on the path using %s' % (norm(sent), u))
             continue
         tries.append(([n for n, _ in order], u, sent_val, msgcall, p))
